@@ -268,10 +268,45 @@ def date_columns(run, only=None):
                 run.fail("data-config-independence", case, {"a": lo.canon_data(ra)[:3], "b": lo.canon_data(rb)[:3]})
 
 
+def overflowing_fields(run, only=None):
+    """rows of EQUAL text length in which a value wider than its padded field sits in different columns (row 0: after a line break
+    of the wrapped layout, row 1: before it): wrapped and unwrapped outputs read back alike"""
+    import lasio
+    import numpy as np
+    base = dict(version=2, fmt="%.5f", lhs_spacer=" ", spacer=" ", mnemonics_header=False, data_section_header="~ASCII")
+    shapes = only or [(c, lnf, w, j0, j1) for c in (6, 8, 9) for lnf in (10, 12) for w in (79, 60, 40)
+                      for j0, j1 in ((c - 1, 1), (c - 1, c // 2), (2, c - 2), (1, c - 1))]
+    for c, lnf, w, j0, j1 in shapes:
+        big = 10 ** (lnf - 6) * 1.5         # one character wider than the field under %.5f
+        def make():
+            las = lasio.LASFile()
+            las.append_curve("DEPT", np.array([1.0, 2.0, 3.0]), unit="M")
+            for j in range(1, c):
+                col = [10.0 * j + 0.5, 10.0 * j + 1.5, 10.0 * j + 2.5]
+                if j == j0:
+                    col[0] = big
+                if j == j1:
+                    col[1] = big
+                las.append_curve("N%d" % j, np.array(col))
+            return las
+        a, b = dict(base, wrap=False, len_numeric_field=lnf, data_width=79), dict(base, wrap=True, len_numeric_field=lnf, data_width=w)
+        case = {"stream": "overflowing-field", "shape": [c, lnf, w, j0, j1], "a": a, "b": b, "dlm": "SPACE"}
+        run.case(case, nontrivial=True, tags=["overflowing-field", "width=%d" % w])
+        try:
+            ta, tb = write(make(), a), write(make(), b)
+            ra, rb = lasio.read(ta), lasio.read(tb)
+        except Exception as e:
+            run.fail("one-output-unreadable", case, {"error": repr(e)[:300]})
+            continue
+        if lo.canon_data(ra) != lo.canon_data(rb):
+            run.fail("data-config-independence", case, {"a": lo.canon_data(ra)[:3], "b": lo.canon_data(rb)[:3]})
+
+
 def run(run):
     import lasio
     pend = []
     date_columns(run)
+    overflowing_fields(run)
     base = dict(wrap=False, fmt="%.5f", len_numeric_field=None, lhs_spacer=" ", spacer=" ", data_width=79,
                 mnemonics_header=False, data_section_header="~ASCII")
     # the known finding, re-run through the oracle on every run
@@ -431,9 +466,9 @@ def shrink(run, f):
 
 def replay(run, payload):
     c = payload["case"]
-    if c.get("stream") == "date-column":
+    if c.get("stream") in ("date-column", "overflowing-field"):
         before = len(run.failures)
-        date_columns(run, only=[tuple(c["shape"])])
+        (date_columns if c["stream"] == "date-column" else overflowing_fields)(run, only=[tuple(c["shape"])])
         return len(run.failures) == before
     a, b = fix_cfg(c["a"]), fix_cfg(c["b"])
     if "reread_text" in c:
